@@ -511,7 +511,7 @@ let run_ksim (dump : Stdlib.String.t list) (hist : Stdlib.String.t) (out : Buffe
           done
         | 'm' ->
           (* one iteration of the processing loop that covers n milliseconds (the loop was late): the idle bookkeeping is told n,
-             then n single milliseconds run (no dynamic-macro replay in these cases: its catch-up depends on n) *)
+             then tick_ms(n) of the model *)
           let n = int_of_string rest in
           let blocked = (match !loop_mode with
             | None -> false
@@ -520,10 +520,10 @@ let run_ksim (dump : Stdlib.String.t list) (hist : Stdlib.String.t) (out : Buffe
               let (k', cb) = k_can_block cfg !k (n_of_int n) in
               k := k'; (cb && zidle ()) && honour) in
           if blocked then tick := !tick + n else begin
+            let (k', evs) = unwrap (k_tick_ms cfg (n_of_int n) !k) in
+            k := k';
+            pending := !pending @ List.map fmt_ev (zfilter evs);
             for _ = 1 to n do
-              let (k', evs) = unwrap (k_tick cfg !k) in
-              k := k';
-              pending := !pending @ List.map fmt_ev (zfilter evs);
               (match zc with Some _ -> z := z_tick ((!k).k_caps_word <> None) !z | None -> ())
             done;
             tick := !tick + n;
